@@ -13,13 +13,15 @@ LEVEL_TEXT = ("TLC checks the goroutine-level models of the packet pipeline, the
               "cancel is issued, under the log lock, by the seam wrapper handling the k-th event - for every k of small runs and sampled "
               "k of large runs with full buffers and slow consumers - for the packet engine and for startScanEngine around the real "
               "application engine; each trace must be a behaviour of the seam-level specifications, the scan call must return and the "
-              "error stream must close within 10 s, and every output write must be a complete line. The chunk loop with Ctrl-C (ScanRun; "
+              "error stream must close within 10 s, and every output write must be a complete line. Schedules of the goroutine-level packet model "
+              "simulated by TLC are stepped through the real generator / merger / sender goroutines by a gate director (hooks under build tag "
+              "verif) with the cancellation placed before every single step; each step must be an action of the model. The chunk loop with Ctrl-C (ScanRun; "
               "the as-found variant that starts further passes after the cancellation must fail) is model checked and the runs of the real "
               "binary that receive SIGINT (mid-scan, in the exit delay, in a 31-pass scan, on a busy wire, with application probes in flight) "
               "are validated against it / against the exit bound; no scenario of the socket-level tier may crash.")
 NOTE = ("Trusted: TLC; the seam wrappers; the bounded-time clauses use 10 s (typical < 50 ms). Goroutines leaked after a cancel (sender parked "
         "on its unconditional error send) are allowed by the specification, as the statement only asks the scan call to return.")
-TECHNIQUE = "TLA+ model checking (TLC) with Cancel action + cancel-point replay on the real code validated against the spec"
+TECHNIQUE = "TLA+ model checking (TLC) with Cancel action + cancel-point replay (seam wrappers, and gate-driven replay of TLC-simulated schedules) on the real code validated against the spec"
 DESIGN_REF = "DESIGN.md section 5, C12"
 
 
@@ -44,7 +46,12 @@ def run(ctx):
     ta, tb = c16.pkt_traces(ctx, 0, 1 if quick else 6, 4 if quick else 8, "c12r")
     n3, _ = vf.validate_runs(ctx, "PacketScanObsTrace", ta, keyfn=c07.keyfn, label="packet engine under startScanEngine, cancel points", timeout=3000)
     vf.validate_runs(ctx, "RunnerTrace", tb, keyfn=c16.keyfn, label="runner timing under cancel")
-    ctx.count(0, [("run", i) for i in range(n1 + n2 + n3)])
+    # a cancellation before every single step of TLC-simulated schedules of PacketScan, stepped through the real generator /
+    # merger / sender goroutines by the gate director: a crash (send on a closed channel, double close) ends the harness process
+    from checks import gate_common
+    n5, _ = gate_common.gate_replay(ctx, [(3, 2, 60, 30), (2, 1, 0, 20)] if quick else [(3, 2, 600, 400), (4, 3, 300, 200), (2, 1, 100, 100), (5, 2, 0, 200)],
+                                    cancel_every=1, label="c12g")
+    ctx.count(0, [("run", i) for i in range(n1 + n2 + n3 + n5)])
     # socket-level tier: SIGINT to the real binary mid-scan and during the exit delay; no run of any scenario may crash or hang
     # the chunk loop under Ctrl-C: no pass is started after the cancellation (as found - finding F18 - the model variant fails)
     ctx.tlc_mc("MC_ScanRun", "MC_ScanRun", workers=8, timeout=900)
